@@ -66,6 +66,10 @@ class AstToODataVisitor(visitor.NodeVisitor):
         """:meta private:"""
         return "duration'" + node.val + "'"
 
+    def visit_Geography(self, node: ast.Geography) -> str:
+        """:meta private:"""
+        return "geography'" + node.val + "'"
+
     def _visit_Literal(self, node: LiteralValNode) -> str:
         """:meta private:"""
         return node.val
@@ -180,6 +184,10 @@ class AstToODataVisitor(visitor.NodeVisitor):
         """:meta private:"""
         operand = self._visit_and_paren_if_precedence_lower(node.operand, type(node.op))
         return self.visit(node.op) + " " + operand
+
+    def visit_NamedParam(self, node: ast.NamedParam) -> str:
+        """:meta private:"""
+        return self.visit(node.name) + "=" + self.visit(node.param)
 
     def visit_Call(self, node: ast.Call) -> str:
         """:meta private:"""
